@@ -304,8 +304,45 @@ pub fn run(run: &mut Run) {
         "wall_s": t0.elapsed().as_secs_f64()}));
     // (b) random universes
     run.prop("random-universe", random_universe, run.tier.pick(3000, 150_000), universe_oracle);
+    // (c) big integers wider than necessary: terms the decoders produce from SMALL_BIG_EXT / LARGE_BIG_EXT with zero digits
+    // above the most significant one (and that the repository's own tests construct); a separate universe because its
+    // failures are a recorded finding (C11-F1)
+    for encs in nonminimal_universes() {
+        run.custom("wider-than-necessary-big-integers", &encs, nonminimal_oracle(&encs));
+    }
+}
+
+/// universes as lists of encodings (hex), decoded by the library itself
+fn nonminimal_universes() -> Vec<Vec<String>> {
+    let sb = |neg: bool, digits: &[u8]| -> String {
+        let mut b = vec![131u8, 110, digits.len() as u8, neg as u8];
+        b.extend_from_slice(digits);
+        b.iter().map(|x| format!("{x:02x}")).collect()
+    };
+    let fl = |f: f64| -> String { format!("8346{:016x}", f.to_bits()) };
+    let zero = [ "836100".to_string(), sb(false, &[]), sb(false, &[0]), sb(false, &[0, 0, 0]), sb(true, &[]), sb(true, &[0]), fl(0.0) ];
+    let five = [ "836105".to_string(), sb(false, &[5]), sb(false, &[5, 0]), sb(false, &[5, 0, 0, 0]), fl(5.0), sb(true, &[5, 0]), sb(true, &[5]), "8362fffffffb".to_string() ];
+    let big = [ sb(false, &[0, 0, 0, 0, 0, 0, 0, 0, 1]), sb(false, &[0, 0, 0, 0, 0, 0, 0, 0, 1, 0, 0]), sb(false, &[255, 255, 255, 255, 255, 255, 255, 255, 0]), sb(false, &[255, 255, 255, 255, 255, 255, 255, 255]), fl(18446744073709551616.0) ];
+    let clean = |v: &[String]| v.to_vec();
+    vec![clean(&zero), clean(&five), clean(&big), [clean(&zero), clean(&five), clean(&big)].concat()]
+}
+
+fn nonminimal_oracle(encs: &[String]) -> Verdict {
+    let terms: Vec<OwnedTerm> = encs.iter().filter_map(|h| erltf::decode(&crate::fuzzbridge::unhex(h)).ok()).collect();
+    if terms.len() != encs.len() {
+        return Verdict::Fail { signature: "valid-encoding-rejected".into(), detail: format!("{} of {} big-integer encodings decoded", terms.len(), encs.len()) };
+    }
+    let mut nt = HashSet::new();
+    match check_laws(&terms, &mut nt) {
+        Ok(_) => Verdict::Pass(CaseInfo::nt(fp(&encs)).class("wider-than-necessary-big-integers")),
+        Err(f) => Verdict::Known {
+            signature: "non-minimal-big-integers-ordered-by-length".into(),
+            detail: format!("{}: {}", f.signature, f.detail),
+            info: CaseInfo::nt(fp(&encs)).class("wider-than-necessary-big-integers"),
+        },
+    }
 }
 
 pub fn replays() -> Vec<ReplayEntry> {
-    vec![replay_entry("corner-universe", universe_oracle), replay_entry("random-universe", universe_oracle)]
+    vec![replay_entry("corner-universe", universe_oracle), replay_entry("random-universe", universe_oracle), replay_entry("wider-than-necessary-big-integers", |e: &Vec<String>| nonminimal_oracle(e))]
 }
